@@ -20,6 +20,8 @@ var c06PWs = []string{
 	"Aa1!" + strings.Repeat("x", 68) + "tail", // 76 bytes, same first 72 as the 72-byte one
 	"Pw1!Pw1!", "Pw1!Pw1!\x00Pw1!Pw1!", // bcrypt-equivalent pair
 	"Passw0rd!\x00A", "Pässw0rd!Ä", "パスワードAa1!", "Passw0rd!a",
+	// characters that mean something to URL / form decoding: the password is whatever was typed
+	"Tr0ub4dor%26Horse", "Pa55%20word!", "Plus+Sign1!", "Amp&Eq=1aA!", " Lead1ng!A", "Trail1ng!A ",
 }
 
 type monC06 struct {
